@@ -531,7 +531,7 @@ func condPart(s string) string {
 	return s
 }
 
-var asciiBound = regexp.MustCompile(`a\[\*\] <= (\d+)`)
+var asciiBound = regexp.MustCompile(`p1\[\*\] <= (\d+)`)
 
 func runAsciiModeRaw(c *Ctx, r *Rep) {
 	rows, und, pos := pathTable(c, tableSpec{key: "py|StringEscape", show: []string{"*"}, prim: []string{"fmt.Fprintf", "strconv.IsPrint", "strings.ContainsRune"}})
@@ -543,7 +543,7 @@ func runAsciiModeRaw(c *Ctx, r *Rep) {
 	n := 0
 	for _, row := range rows {
 		hdr := condPart(row)
-		if !strings.Contains(hdr, "ascii") || strings.Contains(hdr, "!(ascii)") {
+		if !strings.Contains(hdr, "p2") || strings.Contains(hdr, "!(p2)") { // p2: the ascii flag, the second parameter
 			continue
 		}
 		i := strings.Index(row, "LOOP(")
@@ -552,7 +552,7 @@ func runAsciiModeRaw(c *Ctx, r *Rep) {
 		}
 		body := row[i:]
 		for _, alt := range strings.Split(body, " | ") {
-			if !strings.Contains(alt, ".WriteRune(a[*])") {
+			if !strings.Contains(alt, ".WriteRune(p1[*])") { // p1: the string being escaped
 				continue
 			}
 			n++
